@@ -101,6 +101,7 @@ func fragPlan(name string, n int, rng *prng.R) []int {
 func readPaced(rd io.Reader, want int, pacing string, rng *prng.R, timeout time.Duration) ([]byte, error) {
 	out := make([]byte, 0, want)
 	deadline := time.Now().Add(timeout)
+	extended := false
 	buf := make([]byte, 1<<16)
 	type res struct {
 		n   int
@@ -122,6 +123,7 @@ func readPaced(rd io.Reader, want int, pacing string, rng *prng.R, timeout time.
 		}
 		ch := make(chan res, 1)
 		go func() { n, err := rd.Read(buf[:sz]); ch <- res{n, err} }()
+	wait:
 		select {
 		case r := <-ch:
 			out = append(out, buf[:r.n]...)
@@ -129,6 +131,12 @@ func readPaced(rd io.Reader, want int, pacing string, rng *prng.R, timeout time.
 				return out, r.err
 			}
 		case <-time.After(time.Until(deadline)):
+			if !extended {
+				// bytes are outstanding: a loaded machine gets more patience, once, before "lost" is concluded
+				extended = true
+				deadline = time.Now().Add(90 * time.Second)
+				goto wait
+			}
 			return out, fmt.Errorf("timeout after %d of %d bytes", len(out), want)
 		}
 	}
@@ -254,6 +262,12 @@ func runC05(r resIface, c *c05case, rng *prng.R, scratch string) {
 	case "dump":
 		out := filepath.Join(scratch, fmt.Sprintf("dump-%d", c.Index))
 		defer os.Remove(out)
+		if c.Index/6%2 == 1 {
+			// the output path already holds an older, longer dump (a re-run into the same file name)
+			old := bytes.Repeat([]byte{0xEE}, c.N+1+c.Index%977)
+			ioutil.WriteFile(out, old, 0644)
+			r.Count("dumps_over_an_existing_longer_file", 1)
+		}
 		type ret struct {
 			left []byte
 			n    int64
@@ -473,6 +487,7 @@ func c05(c *wk.Ctx) {
 		j := jobs[i]
 		wk.RunBatch(c, "c05cases", j.start, j.end, c05extra{Big: j.big}, 40*time.Minute, onDeath)
 	})
+	r.Floor("dumps_over_an_existing_longer_file", 8)
 	for _, p := range []string{"psync", "continue", "dump", "iocopy"} {
 		r.Floor("path:"+p, 15)
 	}
